@@ -30,6 +30,20 @@ CLAIMED = {
             "relationally (any value stored at the point). Not covered: emplace (does not compile upstream), "
             "coordinate types other than int64.",
             "DESIGN.md 3.13"),
+    "C16": ("TLA+ model of the claim/callback/result protocol (spec/ParallelRange), one action per atomic operation: "
+            "TLC checks all interleavings incl. liveness; the real templates run under a controlled scheduler "
+            "(std::atomic/std::thread retargeted to shims) and every schedule's event trace is validated by TLC "
+            "(refinement + property checks); TSan free runs validated for the property",
+            "Model: every interleaving for 2-3 threads, ranges 0..4, every TrueSet, block sizes 1-2, plain/_blocks/"
+            "_multi, with termination under weak fairness; a regression configuration of the former fetch_add "
+            "algorithm must fail. Implementation: DFS over all scheduler decisions (2 threads, ranges <=3; 3 threads "
+            "thorough) plus random schedules (3-4 threads) and uint8_t ranges ending at 254/255; each run is checked "
+            "by TLC both as a path of the model (drift => MODEL-DRIFT, not a violation) and against exactly-once / "
+            "in-range / result / joined-before-return; free runs with 1..16 real threads under ThreadSanitizer.",
+            "Trusted: TLC; the shim executes one atomic operation per scheduling step (sequential consistency, as "
+            "the code uses default memory order); TSan as data-race sensor on the free runs only; the shim's "
+            "compare_exchange_weak never fails spuriously.",
+            "DESIGN.md 3.16"),
 }
 
 NOT_YET = "check not built yet in this round (planned: see DESIGN.md section 3)"
